@@ -662,8 +662,18 @@ static char *read_file(char *path) {
     fwrite(buf2, 1, n, out);
   }
 
+  // A read error is not the end of the file.
+  bool failed = ferror(fp);
+  int err = errno;
+
   if (fp != stdin)
     fclose(fp);
+
+  if (failed) {
+    fclose(out);
+    errno = err;
+    return NULL;
+  }
 
   // Make sure that the last line is properly terminated with '\n'.
   fflush(out);
